@@ -177,8 +177,8 @@ PROPS["C07"] = dict(
 PROPS["C14"] = dict(
     producers=[("pyvc.table_check", "call_items")],
     level="proof",
-    technique="contract-based: post-conditions / loop invariants on the real A* helpers (crossability, bounds, pixel distance, minimum-cost open cell, nearest crossable cell, path reconstruction) and the cell-lookup arithmetic lemma (pyvc VCs -> z3); optimality and existence bounded against Dijkstra",
-    not_decided=["optimality of the returned route and 'route exists => found' (needs a shortest-path ghost over all routes): bounded, exhaustive on 3x3",
+    technique="contract-based: post-conditions / loop invariants on the real A* helpers (crossability, bounds, pixel distance, minimum-cost open cell, nearest crossable cell, path reconstruction), the search loop itself in two contracts of the same function (structural invariant: parents are closed crossable neighbours and distances add the step length; relaxation invariant: no cheaper route into an open cell is ever ignored) and the cell-lookup arithmetic lemma (pyvc VCs -> z3); optimality and existence bounded against Dijkstra",
+    not_decided=["optimality of the returned route and 'route exists => found' (the relaxation invariant is the local half; the global half needs a shortest-path ghost over all routes and a consistent-heuristic argument): bounded, exhaustive on 3x3",
                  "float rounding inside _get_pixel_id (proved in real arithmetic; fractional steps / offsets bounded)"],
     assumptions=[],
     trusted_base=[],
